@@ -227,6 +227,12 @@ impl<T: RefCnt, Cfg: Config> CaS<T> for HybridStrategy<Cfg> {
             let old = <Self as InnerStrategy<T>>::load(self, storage);
             // Observation of their inequality is enough to make a verdict
             if old.as_ptr() != current.as_raw() {
+                // Get rid of the parameters explicitly, while `old` is still an ordinary local.
+                // Dropping `new` (or a `current` passed by value) may run the destructor of the
+                // pointee; if that panics once `old` has already been moved into the return slot,
+                // the guard is leaked together with its debt.
+                drop(new);
+                drop(current);
                 return old;
             }
             // If they are still equal, put the new one in.
@@ -241,6 +247,8 @@ impl<T: RefCnt, Cfg: Config> CaS<T> for HybridStrategy<Cfg> {
                 // We just got one ref count out of the storage and we have one in old. We don't
                 // need two.
                 T::dec(old.as_ptr());
+                // Same as above, `current` may own a reference.
+                drop(current);
                 return old;
             }
         }
